@@ -69,11 +69,23 @@ def steps23(ver, a):
 SLOT = ["base", "temporal", "environmental"]
 
 
-def check_pair(ctx, ver, lo, hi, m, slots):
+def run_history(ver, pre):
+    """construct and drop the given vectors first (whatever the library remembers of them must not matter)"""
+    for h in pre or ():
+        try:
+            core.impl().cls[ver](h)
+        except Exception:  # noqa
+            pass
+
+
+def check_pair(ctx, ver, lo, hi, m, slots, pre=None):
     ctx.nontrivial((ver, lo, hi))
+    run_history(ver, pre)
     o1, e1 = obs.construct(ver, lo)
     o2, e2 = obs.construct(ver, hi)
     rp = {"ver": ver, "lo": lo, "hi": hi, "metric": m, "slots": slots}
+    if pre:
+        rp["history"] = list(pre)
     if o1 is None or o2 is None:
         ctx.violation("v%s:valid-vector-rejected" % ver, "accepted vector rejected", [lo, hi], "accepted", e1 or e2, replay=rp)
         return
@@ -89,8 +101,30 @@ def check_pair(ctx, ver, lo, hi, m, slots):
                           "a more severe %s lowers the %s score" % (m, SLOT[i]), {"less": lo, "more": hi}, ">= %r" % (s1[i],), s2[i], replay=rp)
 
 
+def exemption_family(ctx, rng):
+    """v3.1 exactly where v3.0 is exempt (Changed scope, high impacts: the region of `v30_env_not_monotone`), each pair after the
+    CVSS:3.0 spellings of both vectors have been scored in this process"""
+    import itertools as _it
+    fam = []
+    for pr in "LHN":
+        base = {"AV": "N", "AC": "L", "PR": pr, "UI": "N", "S": "C", "C": "H", "I": "H", "A": "H"}
+        for cr, ir, ar in _it.product("HML", repeat=3):
+            for mc, mi, ma in _it.product("HLN", repeat=3):
+                a = dict(base, CR=cr, IR=ir, AR=ar, MC=mc, MI=mi, MA=ma)
+                for m, lo, hi in steps23("3", a):
+                    if m in ("MC", "MI", "MA", "CR", "IR", "AR"):
+                        fam.append((render("3", lo, prefix="CVSS:3.1/"), render("3", hi, prefix="CVSS:3.1/"), m))
+    k = max(1, len(fam) // ctx.n(3000, 9000))
+    fam = fam[rng.randrange(k):: k]
+    for lo, hi, m in fam:
+        check_pair(ctx, "3", lo, hi, m, [2], pre=["CVSS:3.0/" + lo[9:], "CVSS:3.0/" + hi[9:]])
+    ctx.count(len(fam))
+    ctx.extra["exemption_region_after_3_0_history"] = len(fam)
+
+
 def run(ctx):
     rng = ctx.rng
+    exemption_family(ctx, rng)      # first: before this process has scored anything else of its own
     pairs = []
     # v2, v3: all base assignments x every base step
     for ver in "23":
@@ -150,6 +184,7 @@ def run(ctx):
 
 def replay(data):
     r = data["replay"]
+    run_history(r["ver"], r.get("history"))
     o1, _ = obs.construct(r["ver"], r["lo"])
     o2, _ = obs.construct(r["ver"], r["hi"])
     if o1 is None:
